@@ -456,6 +456,15 @@ func cliOracleC10(r *Rng, n int, thorough bool, seeds []string) *OracleResult {
 			res.fail(Failure{Oracle: "c10", Input: line, What: w, Class: class})
 		}
 	}
+	{
+		line := "second-call-while-first-is-serialised v6=true"
+		cliNoteLine(line)
+		res.Evaluations++
+		res.Tags["second-call-while-first-is-serialised"]++
+		if w := cliParkedSerialisationProbe(); w != "" {
+			res.fail(Failure{Oracle: "c10", Input: line, What: w, Class: "concurrent-same-id-not-refused"})
+		}
+	}
 	for _, v6 := range []bool{false, true} {
 		line := fmt.Sprintf("write-error-then-same-id v6=%v", v6)
 		cliNoteLine(line)
